@@ -7,7 +7,7 @@ from ..gen import J, JI
 from . import lincommon as lc
 
 PROP = "C09"
-HOSTILE = ('scale', 'mean')
+HOSTILE = ('scale', 'mean', 'special')
 MONITORS = ("WF", "DENS", "CACHE")
 ANCHORS = [("conditional.py", "ConditionalGaussianPDF.affine_conditional_transformation"),
            ("conditional.py", "ConditionalIdentityGaussianPDF.affine_conditional_transformation"),
